@@ -216,9 +216,17 @@ fn main() {
   }
   if args.len() >= 3 && args[1] == "stress" {
     std::panic::set_hook(Box::new(|_| {}));
+    child::stress_watchdog(15, "first-use stress");
     let r = child::run_stress(args[2].parse().unwrap_or(0));
     println!("RESULT {}", r);
-    return;
+    std::process::exit(0);
+  }
+  if args.len() >= 3 && args[1] == "stress-mixed" {
+    std::panic::set_hook(Box::new(|_| {}));
+    child::stress_watchdog(15, "cross-table first-use stress");
+    let r = child::run_stress_mixed(args[2].parse().unwrap_or(0));
+    println!("RESULT {}", r);
+    std::process::exit(0);
   }
   if args.len() >= 4 && args[1] == "probe" {
     std::panic::set_hook(Box::new(|_| {}));
@@ -273,8 +281,8 @@ fn main() {
     if scn_name == "first-use stress (sampled)" {
       let exe = std::env::current_exe().unwrap();
       let mut bad = false;
-      for k in 0..40u64 {
-        let out = Command::new(&exe).arg("stress").arg(k.to_string()).output().expect("stress child");
+      for k in 0..80u64 {
+        let out = Command::new(&exe).arg(if k % 2 == 0 { "stress" } else { "stress-mixed" }).arg((k / 2).to_string()).output().expect("stress child");
         let r: Value = String::from_utf8_lossy(&out.stdout).lines().find_map(|l| l.strip_prefix("RESULT ").map(|r| serde_json::from_str::<Value>(r).ok())).flatten().unwrap_or(json!({}));
         if r["stress"] != json!("done") || r["problems"].as_array().map(|a| !a.is_empty()).unwrap_or(true) {
           bad = true;
@@ -437,11 +445,12 @@ fn main() {
   }
   // free-running first-use stress: SAMPLED corroboration (labelled as such), in fresh processes
   let stress_info = {
-    let nproc: u64 = if quick { 16 } else { 160 };
+    let nproc: u64 = if quick { 32 } else { 320 }; // even: same-table rounds, odd: cross-table rounds
     let items: Vec<u64> = (0..nproc).collect();
     let results = par_map(&items, |&k| {
       let exe = std::env::current_exe().unwrap();
-      match Command::new(exe).arg("stress").arg(k.to_string()).output() {
+      let mode = if k % 2 == 0 { "stress" } else { "stress-mixed" };
+      match Command::new(exe).arg(mode).arg((k / 2).to_string()).output() {
         Ok(o) => String::from_utf8_lossy(&o.stdout).lines().find_map(|l| l.strip_prefix("RESULT ").map(|r| serde_json::from_str::<Value>(r).ok())).flatten(),
         Err(_) => None,
       }
@@ -462,11 +471,11 @@ fn main() {
         api: "get_or_create".into(),
         kind: "first-use-race(sampled)".into(),
         case: json!({"scenario": "first-use stress (sampled)", "call_kind": 0, "depths": [0, 0], "choices": []}),
-        expected: "15 threads released together making the first calls of a process (distinct depths, then three per depth) all obtain the object / value a later call obtains; no panic".into(),
+        expected: "15 threads released together making the first calls of a process (distinct depths, then three per depth), and pairs of threads making the first use of the Layer and of the cell-size constants of one depth with a stagger of -250..250 ns: every call returns, all obtain the object / value a later call obtains, one construction per table and depth; no panic".into(),
         actual: p.to_string(),
       });
     }
-    json!({"processes": nproc, "threads": 15, "exhaustive": false, "note": "free-running threads (sampling): corroboration only, not counted in the exhaustive bound", "problem": first_problem})
+    json!({"processes": nproc, "threads": "15 (same-table rounds) / 2 per depth x 30 depths (cross-table rounds)", "exhaustive": false, "note": "free-running threads (sampling): corroboration only, not counted in the exhaustive bound", "problem": first_problem})
   };
   let mut extra = Map::new();
   extra.insert("first_use_stress_sampled".into(), stress_info);
